@@ -99,9 +99,12 @@ def in_domain_py(walk):
 
 
 def gen_spec(rng, max_classes=7):
-    layout = rng.choice(['one', 'one', 'two', 'three', 'pkg', 'pkg', 'mixed', 'mixed'])
+    layout = rng.choice(['one', 'one', 'two', 'three', 'pkg', 'pkg', 'mixed', 'mixed', 'deep', 'deep', 'deepmixed'])
     modules = {'one': ['m0'], 'two': ['m0', 'm1'], 'three': ['m0', 'm1', 'm2'],
-               'pkg': ['pkg.sub0', 'pkg.sub1'], 'mixed': ['m0', 'pkg.sub0', 'pkg.sub1']}[layout]
+               'pkg': ['pkg.sub0', 'pkg.sub1'], 'mixed': ['m0', 'pkg.sub0', 'pkg.sub1'],
+               # nested package: a module of pkg.inner reaches its siblings with `from .x` and pkg.base0 with `from ..base0`
+               'deep': ['pkg.base0', 'pkg.inner.mix0', 'pkg.inner.impl0'],
+               'deepmixed': ['m0', 'pkg.base0', 'pkg.inner.impl0']}[layout]
     ncls = rng.randint(1, max_classes)
     prop_names = set(rng.sample([n for n in MEMBER_NAMES if not n.startswith('__')], 2))
     classes = []
@@ -175,9 +178,39 @@ def gen_spec(rng, max_classes=7):
                         continue
                     m['assigns'].append({'attr': attr, 'wrap': rng.choice(['', '', '', 'if', 'for', 'try', 'with'])})
             members.append(m)
+        for m in members:
+            for a in m['assigns']:
+                a['val'] = rng.choice(['int', 'int', 'obj'])         # self.x = 1007  /  self.x = Ret(1007)
+            if m['kind'] == 'plain' and m['name'] != '__init__':
+                m['ret'] = rng.choice(['lit', 'none'])
+        # "link" shape: a class-level default `a = <int>`, an instance assignment `self.a = Ret(..)` in some method,
+        # a getter (property / descriptor / single-return method) returning self.a, and another method that binds a
+        # local from the getter and assigns an attribute through it (`c_ = self.link; c_.tmo = 5`): the getter is
+        # first evaluated while attribute assignments are being collected
+        if rng.random() < 0.3:
+            free = [n for n in ('alpha', 'beta', 'value', 'K', 'data', 'state') if n not in prop_names]
+            a = rng.choice(free)
+            gkind = rng.choice(['property', 'desc', 'plain'])
+            # a property is a data descriptor: its name must never be assigned through self anywhere
+            gname = rng.choice([n for n in ('run', 'size', 'conf', 'gamma', 'link')
+                                if n != a and n not in prop_names and not (gkind == 'property' and n in SELF_NAMES)])
+            members = [m for m in members if m['name'] not in (a, gname)]
+            setter = {'name': rng.choice(['__init__', 'setup']), 'kind': 'plain', 'ret': 'none',
+                      'assigns': [{'attr': a, 'wrap': rng.choice(['', 'if']), 'val': rng.choice(['obj', 'obj', 'int'])}]}
+            members = [m for m in members if m['name'] != setter['name']]
+            getter = {'name': gname, 'kind': gkind, 'assigns': [], 'ret': 'self:' + a}
+            if gkind == 'desc':
+                getter['deco'] = rng.choice(['Desc', 'Desc1', 'Desc2'])
+            user = {'name': 'touch', 'kind': 'plain', 'assigns': [], 'ret': 'none',
+                    'alias': [{'via': gname, 'call': gkind == 'plain'}]}
+            default = {'name': a, 'kind': rng.choice(['var_int', 'var_str']), 'assigns': []}
+            extra = [default, setter, getter, user]
+            rng.shuffle(extra)
+            members = members + extra
         for k, m in enumerate(members):
             if any(m2['name'] == m['name'] for m2 in members[k + 1:]):
                 m['assigns'] = []       # a def re-bound later in the same body is dead code: Python never runs it
+                m.pop('alias', None)
         classes.append({'id': cid, 'name': 'C%d' % cid, 'module': mod_idx[i], 'bases': bases, 'members': members,
                         'maker': rng.random() < 0.6, 'getter': rng.random() < 0.3})
     # ---- how a module refers to the classes of earlier modules ----------------------------------
@@ -188,27 +221,89 @@ def gen_spec(rng, max_classes=7):
                 key = '%d:%d' % (c['module'], b)
                 if key not in refs:
                     refs[key] = rng.choice(import_forms(modules, c['module'], classes[b - NBUILTIN]['module']))
-    return {'modules': modules, 'classes': classes, 'refs': refs, 'reexport_star': rng.random() < 0.5,
-            'desc_layout': rng.choice(['local', 'base_remote', 'all_remote'])}
+    spec = {'modules': modules, 'classes': classes, 'refs': refs, 'reexport_star': rng.random() < 0.5,
+            'desc_layout': rng.choice(['local', 'base_remote', 'all_remote']),
+            'recursive_receiver': [mi for mi in range(len(modules)) if rng.random() < 0.25]}
+    rebind_base_names(spec, rng)
+    return spec
+
+
+def rebind_base_names(spec, rng):
+    """`from m import C3` followed by `class C3(C3): ...`: a subclass may take the name of its first base.
+    Only where every other textual reference keeps its meaning: the subclass is a leaf, its base lives in another
+    module and is reached by name, nothing later in the module derives from that base, nobody star-imports the
+    module, and the two modules are not both re-exported by pkg/__init__."""
+    classes, modules = spec['classes'], spec['modules']
+    for c in classes:
+        if not c['bases'] or c['bases'][0] < NBUILTIN or rng.random() > 0.35:
+            continue
+        b = classes[c['bases'][0] - NBUILTIN]
+        if b['module'] == c['module'] or b['name'] != 'C%d' % b['id']:
+            continue
+        if spec['refs'].get('%d:%d' % (c['module'], b['id'])) not in ('from', 'rel_from', 'star'):
+            continue
+        if any(c['id'] in k['bases'] for k in classes):
+            continue
+        if any(k['module'] == c['module'] and k['id'] > c['id'] and b['id'] in k['bases'] for k in classes):
+            continue
+        if any(f == 'star' and classes[int(key.split(':')[1]) - NBUILTIN]['module'] == c['module']
+               for key, f in spec['refs'].items()):
+            continue
+        if is_reexported(modules[b['module']]) and is_reexported(modules[c['module']]):
+            continue
+        if any(k['name'] == b['name'] and k['module'] == c['module'] for k in classes):
+            continue
+        c['name'] = b['name']
+
+
+def package_of(mname):
+    return mname.rpartition('.')[0]
+
+
+def packages_of(modules):
+    """all packages of the layout, outermost first"""
+    out = []
+    for m in modules:
+        parts = m.split('.')[:-1]
+        for k in range(1, len(parts) + 1):
+            p = '.'.join(parts[:k])
+            if p not in out:
+                out.append(p)
+    return sorted(out, key=lambda p: p.count('.'))
+
+
+def is_reexported(mname):
+    """pkg/__init__ re-exports the classes of its direct submodules"""
+    return mname.startswith('pkg.') and mname.count('.') == 1
 
 
 def import_forms(modules, frm, to):
-    """forms by which module index `frm` (or a query file: 'root' / 'pkgq') can reach a class of module `to`."""
+    """forms by which module index `frm` (or a query file: 'root', or the dotted package a query file lives in)
+    can reach a class of module index `to`."""
     tname = modules[to]
     forms = ['import', 'from', 'star', 'import_as', 'from_as']
-    if tname.startswith('pkg.'):
-        if not isinstance(frm, int):
-            # only query files import through the package: a submodule doing `from pkg import C` while
-            # pkg/__init__ imports that submodule is a circular import (import cycles belong to C08)
-            forms.append('reexport')
-        in_pkg = frm == 'pkgq' or (isinstance(frm, int) and modules[frm].startswith('pkg.'))
-        if in_pkg:
-            forms += ['rel_from', 'rel_mod']
+    if is_reexported(tname) and not isinstance(frm, int):
+        # only query files import through the package: a submodule doing `from pkg import C` while
+        # pkg/__init__ imports that submodule is a circular import (import cycles belong to C08)
+        forms.append('reexport')
+    fpkg = package_of(modules[frm]) if isinstance(frm, int) else ('' if frm == 'root' else frm)
+    if fpkg and fpkg.split('.')[0] == tname.split('.')[0] and '.' in tname:
+        forms += ['rel_from', 'rel_mod']
     return forms
 
 
-def import_stmt(form, tname, cname):
-    """(import statement, expression denoting the class)"""
+def relative_parts(fpkg, tname):
+    """(dots, rest): `from <dots><rest>` names module `tname` relative to a module of package `fpkg`"""
+    P, T = fpkg.split('.'), tname.split('.')
+    j = 0
+    while j < len(P) and j < len(T) - 1 and P[j] == T[j]:
+        j += 1
+    assert j >= 1, (fpkg, tname)
+    return '.' * (len(P) - j + 1), T[j:]
+
+
+def import_stmt(form, tname, cname, fpkg=''):
+    """(import statement, expression denoting the class); `fpkg` = package of the importing file (relative forms)"""
     short = tname.split('.')[-1]
     if form == 'import':
         return 'import %s' % tname, '%s.%s' % (tname, cname)
@@ -222,10 +317,11 @@ def import_stmt(form, tname, cname):
         return 'from %s import *' % tname, cname
     if form == 'reexport':
         return 'from pkg import %s' % cname, cname
-    if form == 'rel_from':
-        return 'from .%s import %s' % (short, cname), cname
-    if form == 'rel_mod':
-        return 'from . import %s' % short, '%s.%s' % (short, cname)
+    if form in ('rel_from', 'rel_mod'):
+        dots, rest = relative_parts(fpkg, tname)
+        if form == 'rel_from':
+            return 'from %s%s import %s' % (dots, '.'.join(rest), cname), cname
+        return 'from %s%s import %s' % (dots, '.'.join(rest[:-1]), short), '%s.%s' % (short, cname)
     raise ValueError(form)
 
 
@@ -265,11 +361,11 @@ def render(spec):
                 key = '%d:%d' % (mi, b)
                 if key in spec['refs']:
                     bc = classes[b - NBUILTIN]
-                    stmt, _e = import_stmt(spec['refs'][key], modules[bc['module']], bc['name'])
+                    stmt, _e = import_stmt(spec['refs'][key], modules[bc['module']], bc['name'], package_of(mname))
                     if stmt not in done:
                         done.add(stmt)
                         lines.append(stmt)
-                        names.extend(bound_names(stmt, spec, R))
+                        names.extend(bound_names(stmt, spec, R, package_of(mname)))
         # descriptor classes: defined here, or (desc_layout) the base / the whole chain lives in module 0
         layout = spec.get('desc_layout', 'local')
         used = lambda cs: {m.get('deco', 'Desc') for c in cs for m in c['members'] if m['kind'] == 'desc'}
@@ -301,7 +397,7 @@ def render(spec):
         for dn, dsrc in chain:
             lines.extend(dsrc)
             names.append((dn, None))
-        if any(m.get('ret') == 'obj' for c in mine for m in c['members']):
+        if any(m.get('ret') == 'obj' or any(a.get('val') == 'obj' for a in m['assigns']) for c in mine for m in c['members']):
             lines.extend(RET_SRC)
             names.append(('Ret', None))
         for c in mine:
@@ -315,7 +411,8 @@ def render(spec):
                     if bc['module'] == mi:
                         bexprs.append(bc['name'])
                     else:
-                        bexprs.append(import_stmt(spec['refs']['%d:%d' % (mi, b)], modules[bc['module']], bc['name'])[1])
+                        bexprs.append(import_stmt(spec['refs']['%d:%d' % (mi, b)], modules[bc['module']], bc['name'],
+                                                  package_of(mname))[1])
             lines.append('class %s%s:' % (c['name'], '(%s)' % ', '.join(bexprs) if bexprs else ''))
             info = {'own': [], 'selfs': [], 'site': new_site(mi, len(lines), 6, 'class ' + c['name'])}
             R.cls[cid] = info
@@ -362,19 +459,30 @@ def render(spec):
                         lines.append(ind + 'with open(__file__):')
                         ind += '    '
                     sa = new_site(mi, len(lines) + 1, len(ind), '%s.%s: self.%s' % (c['name'], m['name'], a['attr']))
-                    lines.append('%sself.%s = %d' % (ind, a['attr'], SITE_LIT0 + sa))
+                    lines.append(('%sself.%s = Ret(%d)' if a.get('val') == 'obj' else '%sself.%s = %d') % (ind, a['attr'], SITE_LIT0 + sa))
                     info['selfs'].append((a['attr'], sa))
                     if a['wrap'] == 'try':
                         lines.append('        finally:')
                         lines.append('            pass')
+                for al in m.get('alias', []):
+                    lines.append('        try:')
+                    lines.append('            c_ = self.%s%s' % (al['via'], '()' if al['call'] else ''))
+                    lines.append('            c_.tmo = 5')
+                    lines.append('        except Exception:')
+                    lines.append('            pass')
                 lines.append('        pass')
                 if kind in ('plain', 'property', 'desc'):
                     R.placeholders[cid].append((mi, len(lines), 'self', 'self'))
                 elif kind == 'classmethod':
                     R.placeholders[cid].append((mi, len(lines), 'cls', 'cls'))
-                if kind in ('property', 'desc') and m.get('ret') == 'obj':
+                ret = m.get('ret')
+                if ret is None and kind == 'plain':          # specs written before `ret` existed for plain methods
+                    ret = 'lit' if (m['name'] != '__init__' and s % 2 == 0) else 'none'
+                if kind in ('plain', 'property', 'desc') and ret and ret.startswith('self:'):
+                    lines.append('        return self.%s' % ret[5:])
+                elif kind in ('property', 'desc') and ret == 'obj':
                     lines.append('        return Ret(%d)' % (SITE_LIT0 + s))
-                elif kind in ('property', 'desc') or (m['name'] != '__init__' and kind == 'plain' and s % 2 == 0):
+                elif kind in ('property', 'desc') or (kind == 'plain' and ret == 'lit' and m['name'] != '__init__'):
                     lines.append('        return %d' % (SITE_LIT0 + s))
             R.makers[cid] = {}
             if c['maker']:
@@ -391,24 +499,33 @@ def render(spec):
                 lines.append('    return %s' % c['name'])
                 names.append(('get_' + c['name'], ms))
                 R.makers[cid]['getter'] = 'get_' + c['name']
+        if mine and mi in spec.get('recursive_receiver', []):
+            # a legal, terminating recursive function computes the receiver of a module-level attribute assignment
+            lines.append('def root_of(node, depth=0):')
+            ms = new_site(mi, len(lines), 4, 'root_of')
+            R.firstline[(mi, len(lines))] = ms
+            lines += ['    if depth:', '        result = node', '    else:', '        result = root_of(node, 1)', '    return result',
+                      'default_ = root_of(%s())' % mine[-1]['name'], 'default_.title = 5']
+            names += [('root_of', ms), ('default_', None)]
         R.files[mname.replace('.', '/') + '.py'] = '\n'.join(lines) + '\n'
         R.modnames[mi] = names
-    if any(m.startswith('pkg.') for m in modules):
+    for pk in packages_of(modules):
         init = []
-        for mi, mname in enumerate(modules):
-            if not mname.startswith('pkg.'):
-                continue
-            short = mname.split('.')[-1]
-            mine = [c['name'] for c in classes if c['module'] == mi]
-            if spec['reexport_star']:
-                init.append('from .%s import *' % short)
-            elif mine:
-                init.append('from .%s import %s' % (short, ', '.join(mine)))
-        R.files['pkg/__init__.py'] = '\n'.join(init) + '\n'
+        if pk == 'pkg':
+            for mi, mname in enumerate(modules):
+                if not is_reexported(mname):
+                    continue
+                short = mname.split('.')[-1]
+                mine = [c['name'] for c in classes if c['module'] == mi]
+                if spec['reexport_star']:
+                    init.append('from .%s import *' % short)
+                elif mine:
+                    init.append('from .%s import %s' % (short, ', '.join(mine)))
+        R.files[pk.replace('.', '/') + '/__init__.py'] = '\n'.join(init) + '\n'
     return R
 
 
-def bound_names(stmt, spec, R):
+def bound_names(stmt, spec, R, fpkg=''):
     """names an import statement binds at module level: list of (name, None)."""
     t = ast.parse(stmt).body[0]
     out = []
@@ -418,7 +535,11 @@ def bound_names(stmt, spec, R):
     else:
         for a in t.names:
             if a.name == '*':
-                full = t.module if not t.level else 'pkg.' + t.module
+                if t.level:
+                    P = fpkg.split('.')
+                    full = '.'.join(P[:len(P) - t.level + 1] + ([t.module] if t.module else []))
+                else:
+                    full = t.module
                 mi = spec['modules'].index(full)
                 out.extend((n, None) for n, _s in R.modnames[mi] if not n.startswith('_'))
             else:
@@ -483,56 +604,82 @@ for cid, mname, cname in req['classes']:
     rec = {}
     rec['mro'] = [[k.__module__, k.__qualname__] for k in cls.__mro__]
     rec['vars'] = sorted(n for n in vars(cls) if n not in AUTO)
-    inst = cls()
-    for k in reversed(type(inst).__mro__):
-        if not is_src(k):
-            continue
-        for n, v in list(vars(k).items()):
-            f = None
-            if isinstance(v, types.FunctionType):
-                f = v
-            elif isinstance(v, property):
-                f = v.fget
-            elif type(v).__name__ in ('Desc', 'Desc1', 'Desc2'):
-                f = v.f
-            if f is not None:
-                f(inst)
+    def filled():
+        """a fresh instance on which every method / getter of every source class of the MRO has run once, base
+        classes first (so the assignments of the most derived class are the last ones)"""
+        inst = cls()
+        for k in reversed(type(inst).__mro__):
+            if not is_src(k):
+                continue
+            for n, v in list(vars(k).items()):
+                f = None
+                if isinstance(v, types.FunctionType):
+                    f = v
+                elif isinstance(v, property):
+                    f = v.fget
+                elif type(v).__name__ in ('Desc', 'Desc1', 'Desc2'):
+                    f = v.f
+                if f is not None:
+                    f(inst)
+        return inst
+    inst = filled()
     rec['dict'] = sorted(vars(inst))
     src_names = set()
     for k in cls.__mro__:
         if is_src(k):
             src_names.update(n for n in vars(k) if n not in AUTO)
     rec['src_class_names'] = sorted(src_names)
-    clk, ilk, values = {}, {}, {}
+    def describe(val):
+        """what Python finds on a VALUE: kind, and for an instance of the source class Ret its attributes and
+        where one of its methods is defined"""
+        if isinstance(val, bool):
+            return {'kind': 'other'}
+        if isinstance(val, int):
+            return {'kind': 'int'}
+        if isinstance(val, str):
+            return {'kind': 'str'}
+        if type(val).__name__ == 'Ret' and is_src(type(val)):
+            code = val.ret_meth.__func__.__code__
+            # class-body names and attributes assigned through self (`tmo` is assigned through a local alias of the
+            # value, which is not one of the attribute sources the property names)
+            return {'kind': 'ret', 'names': sorted(n for n in dir(val) if not (n.startswith('__') and n.endswith('__')) and n != 'tmo'),
+                    'meth': [os.path.relpath(os.path.realpath(code.co_filename), proj), code.co_firstlineno]}
+        return {'kind': 'other'}
+
+    clk, ilk, values, callvalues = {}, {}, {}, {}
     for x in req['names']:
-        try:
-            val = getattr(inst, x)
-            if type(val).__name__ == 'Ret' and is_src(type(val)):
-                # what Python finds on the VALUE of inst.x: its source-defined attributes and one definition
-                code = val.ret_meth.__func__.__code__
-                values[x] = {'names': sorted(n for n in dir(val) if not (n.startswith('__') and n.endswith('__'))),
-                             'meth': [os.path.relpath(os.path.realpath(code.co_filename), proj), code.co_firstlineno]}
-        except AttributeError:
-            pass
         try:
             clk[x] = ident(getattr(cls, x))
         except AttributeError:
             clk[x] = None
         try:
-            in_dict = x in vars(inst)
-            ilk[x] = [in_dict, ident(getattr(inst, x))]
+            val = getattr(inst, x)
         except AttributeError:
             ilk[x] = None
+            continue
+        in_dict = x in vars(inst)
+        # which definition the lookup selected: the instance slot's value, otherwise what the type lookup finds
+        # (for a property / descriptor that is the descriptor object, whatever its getter returns)
+        ilk[x] = [in_dict, ident(val if in_dict else getattr(type(inst), x))]
+        # values are described on fresh instances: evaluating getters / calling methods assigns attributes
+        values[x] = describe(getattr(filled(), x))
+        if isinstance(val, types.MethodType) and x != '__init__' and is_src(type(inst)) \
+                and getattr(val.__func__, '__code__', None) is not None and val.__func__.__code__.co_argcount == 1:
+            try:
+                callvalues[x] = describe(getattr(filled(), x)())
+            except Exception as e:
+                callvalues[x] = {'kind': 'raises', 'exc': type(e).__name__}
     rec['cls_lookup'] = clk
     rec['inst_lookup'] = ilk
     rec['values'] = values
+    rec['callvalues'] = callvalues
     out['classes'][str(cid)] = rec
 json.dump(out, sys.stdout)
 '''
 
 
 def run_oracle(projdir, spec, names, scratch):
-    req = {'modules': spec['modules'] + (['pkg'] if any(m.startswith('pkg.') for m in spec['modules']) else []),
+    req = {'modules': spec['modules'] + packages_of(spec['modules']),
            'classes': [[c['id'], spec['modules'][c['module']], c['name']] for c in spec['classes']],
            'names': names, 'auto': sorted(AUTO_CLASS_KEYS)}
     rp = os.path.join(scratch, 'oracle_req.json')
@@ -608,10 +755,14 @@ def reach_forms(spec, R, cid, target):
             continue
         stmt, e = import_stmt(f, tname, nm)
         out.append({'file': 'q_root.py', 'header': [stmt], 'expr': e, 'form': f})
-    if tname.startswith('pkg.'):
+    for pk in packages_of(modules):
+        # a query file inside every package of the layout: relative imports of level 1, 2, ... and downwards
         for f in ('rel_from', 'rel_mod'):
-            stmt, e = import_stmt(f, tname, nm)
-            out.append({'file': 'pkg/q_rel.py', 'header': [stmt], 'expr': e, 'form': f})
+            if f in import_forms(modules, pk, mi):
+                stmt, e = import_stmt(f, tname, nm, pk)
+                lvl = len(stmt.split(' ')[1]) - len(stmt.split(' ')[1].lstrip('.'))
+                out.append({'file': pk.replace('.', '/') + '/q_rel.py', 'header': [stmt], 'expr': e,
+                            'form': '%s_level%d' % (f, lvl)})
     return out
 
 
@@ -728,8 +879,8 @@ def plan_queries(spec, R, oracle, rng, thorough):
     for mi, mname in enumerate(spec['modules']):
         short = mname.split('.')[-1]
         forms = [('import %s' % mname, mname), ('import %s as mm_' % mname, 'mm_')]
-        if mname.startswith('pkg.'):
-            forms.append(('from pkg import %s' % short, short))
+        if '.' in mname:
+            forms.append(('from %s import %s' % (package_of(mname), short), short))
         for stmt, e in (forms if thorough else [rng.choice(forms)]):
             reach = {'file': 'q_root.py', 'header': [stmt], 'expr': e, 'form': 'module'}
             via = stmt.split(' ')[0] + ('_as' if ' as ' in stmt else '') + '_module'
@@ -741,36 +892,62 @@ def plan_queries(spec, R, oracle, rng, thorough):
                 q = make_query(R, spec, reach, 'class', x, 'location')
                 q.update({'table': 'mod', 'cid': mi, 'attr': x, 'via': via, 'expr': 'module'})
                 qs.append(q)
-    # value of an attribute: literal class variable / instance slot (`C.K.|`, `C().x.|`) and what a property or
-    # descriptor getter returns (`C().prop.|`, and go-to-definition behind it `C().prop.ret_me|th`)
+    # value of an attribute: literal class variable / instance slot (`C.K.|`, `C().x.|`), what a property or descriptor
+    # getter returns (`C().prop.|`, go-to-definition behind it `C().prop.ret_me|th`) and what a single-return method
+    # returns (`C().meth().|`); the expectation is what CPython found on the value it computed
+    classes = spec['classes']
+
+    def live_def(cid, x):
+        """(defining class, member) the lookup of x on class cid selects (only used to choose queries)"""
+        for k in ancestors(classes, cid):
+            if k >= NBUILTIN:
+                ms = [m for m in classes[k - NBUILTIN]['members'] if m['name'] == x]
+                if ms:
+                    return k, ms[-1]
+        return None, None
+
     vals, getters = [], []
-    for c in spec['classes']:
-        orc = oracle['classes'][str(c['id'])]
+    for c in classes:
+        cid = c['id']
+        orc = oracle['classes'][str(cid)]
         for x, idn in sorted(orc['cls_lookup'].items()):
             if idn and idn[0] == 'lit':
-                vals.append((c['id'], 'class', x, idn[1]))
+                vals.append((cid, 'class', x, ''))
         for x, v in sorted(orc['inst_lookup'].items()):
-            if v and v[1][0] == 'lit':
-                is_getter = not v[0] and (orc['cls_lookup'].get(x) or [None])[0] == 'code'
-                (getters if is_getter else vals).append((c['id'], 'inst', x, v[1][1]))
+            if not v:
+                continue
+            on_type = orc['cls_lookup'].get(x)
+            k, m = live_def(cid, x)
+            # `self` in a getter is an instance of the DEFINING class for supp: a getter returning self.<a> is asked
+            # on instances of its own class only (see notes, observation O4)
+            own_self = not (m and str(m.get('ret', '')).startswith('self:') and k != cid)
+            if orc['values'].get(x, {}).get('kind') in ('int', 'str', 'ret'):
+                if v[0] or (on_type and on_type[0] == 'lit'):
+                    vals.append((cid, 'inst', x, ''))
+                elif on_type and on_type[0] == 'code' and own_self:
+                    getters.append((cid, 'inst', x, ''))
+            if not v[0] and orc.get('callvalues', {}).get(x, {}).get('kind') in ('int', 'str', 'ret') and own_self:
+                getters.append((cid, 'inst', x, '()'))
     if not thorough:
         vals = rng.sample(vals, min(3, len(vals)))
-        getters = rng.sample(getters, min(8, len(getters)))
-    for cid, form, x, lit in vals + getters:
+        getters = rng.sample(getters, min(10, len(getters)))
+    for cid, form, x, call in vals + getters:
         reach = rng.choice(reach_forms(spec, R, cid, 'class'))
         base = make_query(R, spec, reach, form, x, 'location')
         lines = base['source'].rstrip('\n').split('\n')
-        tail = lines[-1]
+        tail = lines[-1] + call
+        expr = ('call_value' if call else 'value_' + form)
         q = dict(base)
         lines[-1] = tail + '.'                                   # `expr.attr` -> `expr.attr.|`
         q.update({'op': 'assist', 'source': '\n'.join(lines) + '\n', 'pos': [len(lines), len(lines[-1])],
-                  'table': 'lit', 'cid': cid, 'attr': x, 'lit': lit, 'via': reach['form'], 'expr': 'value_' + form})
+                  'table': 'lit', 'cid': cid, 'attr': x, 'via': reach['form'], 'expr': expr})
         qs.append(q)
-        if x in oracle['classes'][str(cid)].get('values', {}):
+        d = oracle['classes'][str(cid)]['callvalues' if call else 'values'].get(x, {})
+        if form == 'inst' and d.get('kind') == 'ret':
             q = dict(base)
             lines[-1] = tail + '.ret_meth'                       # `expr.attr.ret_me|th`
             q.update({'op': 'location', 'source': '\n'.join(lines) + '\n', 'pos': [len(lines), len(tail) + 5],
-                      'table': 'lit', 'cid': cid, 'attr': x, 'lit': lit, 'via': reach['form'], 'expr': 'value_' + form})
+                      'table': 'lit', 'cid': cid, 'attr': x, 'via': reach['form'], 'expr': expr})
             qs.append(q)
     return qs
 
@@ -980,6 +1157,7 @@ def i_case_term(rec, intern):
     ncls = len(rec['spec']['classes'])
     qts = []
     kept = []
+    seen = set()
     for qi, q in enumerate(rec['queries']):
         if q['table'] == 'lit' or q['result'][0] != 'ok':
             continue
@@ -995,7 +1173,11 @@ def i_case_term(rec, intern):
             ks = 'None'
             obs = coq_list([site_term(s) for s in landing_sites(rec, chain)]) if chain else '[]'
             locs = coq_list(['(%s, %s)' % (coq_N(intern(q['attr'])), obs)])
-        qts.append('(%s, %s, %s, %s)' % (coq_nat(c), 'true' if inst else 'false', ks, locs))
+        term = '(%s, %s, %s, %s)' % (coq_nat(c), 'true' if inst else 'false', ks, locs)
+        if term in seen:
+            continue              # another query of this hierarchy observed exactly the same answer for the same table
+        seen.add(term)
+        qts.append(term)
         kept.append(qi)
     return '(%s, %s)' % (table_term(rec, intern), coq_list(qts)), kept
 
@@ -1040,22 +1222,30 @@ def direct_failures(rec):
             bad.append((qi, 'supp raised %s' % res))
             continue
         if q['table'] == 'lit':
-            val = rec['oracle']['classes'][str(q['cid'])].get('values', {}).get(q['attr']) if q['expr'] == 'value_inst' else None
+            orc = rec['oracle']['classes'][str(q['cid'])]
+            if q['expr'] == 'call_value':
+                d = orc['callvalues'][q['attr']]
+            elif q['expr'] == 'value_inst':
+                d = orc['values'][q['attr']]
+            else:
+                d = {'kind': 'literal'}                           # class variable: `x = 1007` or `x = 's1007'`
+            what = '%s%s' % (q['attr'], '()' if q['expr'] == 'call_value' else '')
             if q['op'] == 'assist':
                 got = set(res)
-                if val is not None:
-                    # CPython evaluated inst.attr to an instance of a source class: its attributes must be proposed
-                    miss = sorted(set(val['names']) - got)
+                if d['kind'] == 'ret':
+                    # CPython evaluated the expression to an instance of a source class: its attributes must be proposed
+                    miss = sorted(set(d['names']) - got)
                     if miss:
-                        bad.append((qi, 'value of %s is an instance whose attributes %s are not proposed' % (q['attr'], miss)))
-                elif not (set(dir(1)) <= got or set(dir('')) <= got):
-                    # the value is an int (`x = 1007`) or a str (`x = 's1007'`) literal
-                    bad.append((qi, 'proposals on the literal value of %s miss attributes of int/str: %s' % (q['attr'], sorted(got)[:8])))
+                        bad.append((qi, 'value of %s is an instance whose attributes %s are not proposed' % (what, miss)))
+                else:
+                    want = [set(dir(1))] if d['kind'] == 'int' else [set(dir(''))] if d['kind'] == 'str' else [set(dir(1)), set(dir(''))]
+                    if not any(w <= got for w in want):
+                        bad.append((qi, 'value of %s is %s under CPython; its attributes are not proposed: %s' % (what, d['kind'], sorted(got)[:8])))
             else:
-                text = rec['files'][val['meth'][0]].split('\n')[val['meth'][1] - 1]
-                exp = [val['meth'][0], val['meth'][1], text.index('def ret_meth') + 4]
+                text = rec['files'][d['meth'][0]].split('\n')[d['meth'][1] - 1]
+                exp = [d['meth'][0], d['meth'][1], text.index('def ret_meth') + 4]
                 if len(res) != 1 or res[-1] != [exp]:
-                    bad.append((qi, 'definition behind the value of %s: Python finds ret_meth at %s, supp lands on %s' % (q['attr'], exp, res)))
+                    bad.append((qi, 'definition behind the value of %s: Python finds ret_meth at %s, supp lands on %s' % (what, exp, res)))
             continue
         if q['table'] == 'mod':
             mname = spec['modules'][q['cid']]
@@ -1273,9 +1463,11 @@ def run(ctx):
         i_terms.append(t)
         i_kept.append(kept)
         r_terms.append(r_case_term(rec, intern))
-    shard = 25
+    # quick: both groups fit one wave of coqc jobs (8 + 8 on 16 workers); thorough: 25 hierarchies per file
+    shard = 25 if ctx.thorough() else max(10, -(-len(recs) // 8))
     bad_i, bad_r = run_cases_groups(ctx, [(prelude_b + PRELUDE_I, i_terms), (prelude_b + PRELUDE_R, r_terms)], shard)
-    cov['correspondence_I_cases'] = sum(len(k) for k in i_kept)
+    cov['correspondence_I_cases'] = sum(1 for r in recs for q in r['queries'] if q['table'] != 'lit' and q['result'][0] == 'ok')
+    cov['correspondence_I_distinct_observations'] = sum(len(k) for k in i_kept)
     cov['correspondence_R_cases'] = sum(len(r['spec']['classes']) for r in recs)
     cov['correspondence_I_disagreeing_hierarchies'] = len(bad_i)
     cov['correspondence_R_disagreeing_hierarchies'] = len(bad_r)
